@@ -20,7 +20,7 @@ FINISH = dict(rule='every first word of the add/sub/cmp/logic/moda families x k 
 
 def run(ck):
     ck.mc('AluTheorems', 'MC_Alu_W4.cfg', timeout=3000, coverage=False)
-    isa_common.family_check(ck, FAMILY, ck.pick(2, 4), 'c03', rounds=ck.pick(1, 3))
+    isa_common.family_check(ck, FAMILY, ck.pick(4, 8), 'c03', rounds=ck.pick(1, 4))
     ck.assumptions += isa_common.ISA_ASSUMPTIONS + [
         'exactness is proved exhaustively at limb width 4 (operators are generic in the width) and observed at width 16']
 
